@@ -22,8 +22,14 @@ EXPLANATION = (
     "Exception and answers through json_error_formatter. R17.4: every write "
     "is inside a writer scope (a fault rolls the whole request transaction "
     "back) and nothing below a writer root swallows an error outside the "
-    "table. Exactly-once under injected faults is a fault-sequence property "
-    "and is not decided.")
+    "table. R17.5 (necessary condition of exactly-once when the database "
+    "did not roll the failed attempt back): each retried body is "
+    "re-runnable - _set_allocations deletes the rows of every consumer of "
+    "the list before inserting, the start-up syncs insert only the names "
+    "missing from the table, _set_aggregates re-reads the associations and "
+    "writes only the difference, with the generation bump as its last "
+    "fallible statement. Exactly-once under injected faults as a whole is a "
+    "fault-sequence property and is not decided.")
 ASSUMPTIONS = [
     "wrap_db_retry re-invokes the decorated callable on the configured "
     "errors; enginefacade rolls back on any exception leaving the outermost "
@@ -232,3 +238,126 @@ def run(ctx, R):
         R.ob('R17.4', '%s:scope' % q, ctx.effects.scope_kind(f) == 'writer',
              'the start-up synchronisation is one writer transaction',
              [d.qname for d in f.decorators], func=f)
+
+
+def r175(ctx, R):
+    """A retried body is re-runnable: what the failed attempt may have left
+    in the (not rolled back) enclosing transaction is removed or skipped by
+    the next attempt."""
+    from psa.rules import c01, c05, c19
+    prog = ctx.prog
+    # _set_allocations: clean slate before insert
+    c01.r12(ctx, R, 'R17.5')
+    # start-up syncs: insert only what is missing
+    c19.sync_difference(ctx, R, 'R17.5')
+    # _set_aggregates: state is re-read inside the retried body and only
+    # the difference is written; the generation bump is its last statement
+    f = prog.func('placement.objects.resource_provider:_set_aggregates')
+    g = cfgmod.cfg_of(f)
+    reads = [c for c in C.calls_to(
+        ctx, f, 'placement.objects.resource_provider:'
+        '_get_aggregates_by_provider_id')]
+    ok = len(reads) == 1 and not C.guarding_ifs(C.stmt_of(reads[0]), f.node)
+    R.ob('R17.5', '_set_aggregates:rereads-associations', ok,
+         'the current associations are read inside the retried body',
+         len(reads), func=f)
+    existing = None
+    if ok:
+        st = C.stmt_of(reads[0])
+        existing = st.targets[0].id if isinstance(st, ast.Assign) and \
+            isinstance(st.targets[0], ast.Name) else None
+    ins = [e for e in ctx.effects.direct[f] if e.op == 'I']
+    dels = [e for e in ctx.effects.direct[f] if e.op == 'D']
+    okw = len(ins) == 1 and len(dels) == 1 and existing is not None
+    why = 'insert=%d delete=%d' % (len(ins), len(dels))
+    if okw:
+        def loop_source(stmt):
+            cur = getattr(stmt, '_parent', None)
+            while cur is not None and cur is not f.node:
+                if isinstance(cur, ast.For):
+                    return cur
+                cur = getattr(cur, '_parent', None)
+            return None
+
+        def derives(name, pred, depth=0):
+            """name is (transitively) defined from an expression for which
+            pred holds."""
+            if depth > 4:
+                return False
+            for n in own_nodes(f.node):
+                tgt = None
+                if isinstance(n, ast.Assign) and isinstance(
+                        n.targets[0], ast.Name) and n.targets[0].id == name:
+                    if pred(n.value):
+                        return True
+                    tgt = n.value
+                # d[k] = v inside "for x in <src>"
+                if isinstance(n, ast.Assign) and isinstance(
+                        n.targets[0], ast.Subscript) and src(
+                            n.targets[0].value) == name:
+                    lp = loop_source(n)
+                    if lp is not None and isinstance(lp.iter, ast.Name) \
+                            and derives(lp.iter.id, pred, depth + 1):
+                        return True
+            return False
+
+        def mentions(e, depth=0):
+            for x in ast.walk(e):
+                if isinstance(x, ast.Name):
+                    if x.id == existing:
+                        return True
+                    d = c05.single_def(f, x.id)
+                    if d is not None and depth < 3 and d.value is not e \
+                            and mentions(d.value, depth + 1):
+                        return True
+            return False
+
+        def is_add_diff(e):
+            return isinstance(e, ast.BinOp) and isinstance(
+                e.op, ast.Sub) and mentions(e.right)
+
+        def is_del_filter(e):
+            return isinstance(e, ast.DictComp) and mentions(
+                e.generators[0].iter) and len(e.generators[0].ifs) == 1 \
+                and isinstance(e.generators[0].ifs[0], ast.Compare) and \
+                isinstance(e.generators[0].ifs[0].ops[0], ast.NotIn)
+        li = loop_source(ins[0].stmt)
+        ld = loop_source(dels[0].stmt)
+
+        def iter_name(lp):
+            it = lp.iter if lp is not None else None
+            if isinstance(it, ast.Call) and isinstance(
+                    it.func, ast.Attribute):
+                it = it.func.value
+            return it.id if isinstance(it, ast.Name) else None
+        oki = li is not None and iter_name(li) and derives(
+            iter_name(li), is_add_diff)
+        okd = ld is not None and iter_name(ld) and derives(
+            iter_name(ld), is_del_filter)
+        okw = bool(oki and okd)
+        why = 'insert over provided - existing: %s; delete over existing ' \
+            'not provided: %s' % (bool(oki), bool(okd))
+    R.ob('R17.5', '_set_aggregates:writes-difference-only', okw,
+         'associations are inserted only for uuids not yet associated and '
+         'deleted only for associations not requested, both computed from '
+         'the re-read state', why, func=f)
+    inc = [s for s in ctx.cg.calls_in(f)
+           if any(c.name == 'increment_generation' for c in s.callees)]
+    okg = len(inc) == 1
+    if okg:
+        st = C.stmt_of(inc[0].node)
+        after = g.reachable_from([st]) - {st}
+        okg = not any(isinstance(x, ast.AST) and cfgmod.may_raise_stmt(x)
+                      for x in after)
+    R.ob('R17.5', '_set_aggregates:generation-bump-last', okg,
+         'nothing that can fail (and trigger a retry) follows the '
+         'generation increment', len(inc), func=f)
+    R.count('R17.5', 3, 3)
+
+
+_run_c17 = run
+
+
+def run(ctx, R):
+    _run_c17(ctx, R)
+    r175(ctx, R)
